@@ -106,8 +106,14 @@ def resolve_all_steps(r):
 def evaluate(inp):
     from cgsmiles import MoleculeResolver, read_cgsmiles
     from cgsmiles.read_fragments import read_fragments
-    if inp.get('kind') in ('hashseed', 'history'):
-        return Verdict(skip=True, outcome='replayed by the explorer only')
+    if inp.get('kind') == 'hashseed':
+        return replay_hashseed(inp)
+    if inp.get('kind') == 'history':
+        ops, replay = history_machine(inp['library'])
+        viol, state = replay([tuple(o) for o in inp['history']])
+        if viol:
+            return bad(viol[0], None, viol[1])
+        return Verdict(outcome='history-ok')
     s = BF.cgsmiles(inp['base'], inp['frags'])
     aa, legacy = inp['all_atom'], inp['legacy']
     try:
@@ -216,11 +222,11 @@ HIST_LIBS = [
 ]
 
 
-def run_history(task, R):
+def history_machine(fragstr):
+    """returns (ops, replay) for histories over one shared library built from fragstr"""
     from cgsmiles import MoleculeResolver, read_cgsmiles
     from cgsmiles.read_fragments import read_fragments
     from cgsmiles.sample import MoleculeSampler
-    fragstr = HIST_LIBS[task['variant'] % len(HIST_LIBS)]
     inputs = [b for b, _ in HIST_INPUTS]
     # references, one call each in isolation
     ref = {}
@@ -239,6 +245,7 @@ def run_history(task, R):
         lib0 = lib_dump(lib)
         live = []
         for op in hist:
+            op = tuple(op)
             out = None
             try:
                 if op[0] == 'new':
@@ -274,14 +281,19 @@ def run_history(task, R):
                 return ('history:shared-library-modified', {'op': list(op)}), None
         state = (tuple((b, st) for _, b, st in live), hashlib.md5(lib_dump(lib).encode()).hexdigest())
         return None, state
+    return ops, replay
+
+
+def run_history(task, R):
+    fragstr = HIST_LIBS[task['variant'] % len(HIST_LIBS)]
+    ops, replay = history_machine(fragstr)
     ex = Explorer(dedup=True)
-    results = {}
+    bad_hist = set()
 
     def succ(hist):
         if len(hist) >= task['depth'] or hist in bad_hist:
             return []
         return [hist + (op,) for op in ops]
-    bad_hist = set()
     for hist in ex.run_bfs((), succ, lambda h: len(h) >= 1):
         viol, state = replay(hist)
         inp = {'kind': 'history', 'library': fragstr, 'history': [list(o) for o in hist]}
@@ -291,6 +303,22 @@ def run_history(task, R):
         else:
             R.record(inp, Verdict(nontrivial=len(hist) >= 2, outcome='h%d:%s' % (len(hist), hashlib.md5(repr(state).encode()).hexdigest()[:6])))
     R.add_explorer(ex)
+
+
+def replay_hashseed(inp):
+    from cgsmiles import MoleculeResolver
+    verif = os.path.dirname(os.path.dirname(os.path.dirname(os.path.abspath(__file__))))
+    s = inp['string']
+    try:
+        c, f = MoleculeResolver.from_string(s).resolve()
+        here = hashlib.md5(dump_pair(c, f).encode()).hexdigest()
+    except Exception as e:
+        here = 'raises:' + type(e).__name__
+    script = HS_SCRIPT % {'verif': verif, 'strings': json.dumps([s])}
+    diff = [hs for hs in HASHSEEDS + list(range(5, 12)) if own.fresh(script, hs)[0] != here]
+    if diff:
+        return bad('result-depends-on-PYTHONHASHSEED', None, {'string': s, 'hashseeds': diff})
+    return Verdict(outcome=here[:8])
 
 
 def run_task(task, R):
